@@ -37,6 +37,32 @@ theorem sockhDestroy_built (h : Heap) :
 theorem sockhDestroy_empty (h : Heap) : sockhDestroy {} h = .ok ({}, h) := by
   simp [sockhDestroy, free, bind, Except.bind, pure, Except.pure]
 
+/-! ## socket event-loop pipe, socket -/
+
+theorem evpipeInit_contract (f : Sched) (h : Heap) :
+    InitContract ({ a := .own, b := .own } : Two) {} 0 2 1 f h (evpipeInit f h) := by
+  fault_tree f h.nacq 0 1 <;>
+  simp [*, InitContract, clean_succ, clean_zero, evpipeInit, openPipe, Grow, Failed]
+
+theorem evpipeDestroy_built (h : Heap) :
+    evpipeDestroy { a := .own, b := .own } h = .ok ({}, { h with fds := h.fds - 2 }) := by
+  simp [evpipeDestroy, closeFd, bind, Except.bind, pure, Except.pure]; omega
+
+theorem evpipeDestroy_empty (h : Heap) : evpipeDestroy {} h = .ok ({}, h) := by
+  simp [evpipeDestroy, closeFd, bind, Except.bind, pure, Except.pure]
+
+theorem sockCreate_contract (f : Sched) (h : Heap) :
+    InitContract ({ p := .own } : One) {} 0 1 1 f h (sockCreate f h) := by
+  fault_tree f h.nacq 0 1 <;>
+  simp [*, InitContract, clean_succ, clean_zero, sockCreate, openFd, Grow, Failed]
+
+theorem sockClose_built (h : Heap) :
+    sockClose { p := .own } h = .ok ({}, { h with fds := h.fds - 1 }) := by
+  simp [sockClose, closeFd, bind, Except.bind, pure, Except.pure]
+
+theorem sockClose_empty (h : Heap) : sockClose {} h = .ok ({}, h) := by
+  simp [sockClose, closeFd, bind, Except.bind, pure, Except.pure]
+
 /-! ## async logger -/
 
 theorem alogInit_contract (f : Sched) (h : Heap) :
